@@ -7,8 +7,11 @@ coq/Model/Serialize.v:show_serialized_all ("v1 ## v2 ## ... ## ").
 import json
 import sys
 
-import schema_impl as S   # patches uuid4 / uuid5 / the constructor clock on import
-import stix2
+import schema_impl as S   # patches uuid4 / uuid5 / the constructor clock on import (and survives a failing import of the library)
+try:
+    import stix2
+except Exception:  # noqa: BLE001  -- a library that cannot be imported in this process: every case answers that, nothing crashes
+    stix2 = None
 
 
 def kw(opts):
@@ -19,6 +22,8 @@ def kw(opts):
 
 
 def run(case):
+    if stix2 is None or getattr(S, "IMPORT_ERROR", None):
+        return "ERR library-not-importable " + str(getattr(S, "IMPORT_ERROR", None))
     try:
         if case["op"] == "parse":
             obj = stix2.parse(case["data"], allow_custom=case.get("allow", False))
